@@ -57,8 +57,10 @@ type Sched struct {
 	deadlock     bool
 	deadlockSite uint32
 	sig          uint64 // schedule signature: hash of (client, site) at switch points
-	cover        []uint64
-	coverCount   int
+	sigK         uint64 // the same over (client, local yield count): free of site ids, which one address-dependent
+	// branch of the library (overlaps() in dense_assign.go compares the addresses of two allocations) makes differ between processes
+	cover      []uint64
+	coverCount int
 
 	onSwitch func(from, to int) // oracle hook, called in the yielding client's goroutine
 
@@ -84,6 +86,7 @@ func (s *Sched) Reset(nsites int) {
 	s.coverCount = cc
 	s.maxYields = 4 << 20
 	s.sig = fnvOff
+	s.sigK = fnvOff
 	s.tape = tp[:0]
 }
 
@@ -256,6 +259,7 @@ func (s *Sched) decide(c int, kind string, site uint32, boundary bool) int {
 			s.switchesInOp++
 		}
 		s.sig = fnvU64(s.sig, uint64(c)<<40|uint64(site)<<8|uint64(uint8(next)))
+		s.sigK = fnvU64(s.sigK, uint64(c)<<56|s.local[c]<<8|uint64(uint8(next)))
 	}
 	return next
 }
